@@ -136,9 +136,47 @@ func genC08(g *Rng, tier string, emit func(Op)) {
 		emit(listOp(s.keys, s.trees, s.ctx, s.nonce, false, nil, "seed", "accept"))
 		root := any(T{"l": any(s.trees)}) // holder, so that list elements themselves can be removed
 		paths := allPaths(root)
+		// two cooperating sites: an index that is neither disclosed nor hidden (its disclosed entry
+		// removed) combined with a range proof / response re-keyed onto it
+		for pi, ptree := range s.trees {
+			pt, _ := ptree.(T)
+			ad, _ := pt["a_disclosed"].(T)
+			for dk := range ad {
+				for _, mapName := range []string{"rangeproofs", "a_responses"} {
+					src, _ := pt[mapName].(T)
+					for sk := range src {
+						if mapName == "a_responses" && sk == "0" {
+							continue
+						}
+						t2 := cloneTree(root).(T)
+						p2 := t2["l"].([]any)[pi].(T)
+						delete(p2["a_disclosed"].(T), dk)
+						mm := p2[mapName].(T)
+						mm[dk] = mm[sk]
+						delete(mm, sk)
+						emit(listOp(s.keys, t2["l"].([]any), s.ctx, s.nonce, false, nil, "mut-gap-rekey-"+mapName, "reject|decode-error"))
+					}
+				}
+			}
+		}
 		for m := 0; m < nmut; m++ {
 			t2 := cloneTree(root)
+			if m%3 == 2 {
+				// double mutant: a first random deletion before the main mutation
+				q := paths[g.intn(len(paths))]
+				if _, ok := getAt(t2, q); ok && len(q) > 1 {
+					deleteAt(t2, q)
+				}
+			}
 			p := paths[g.intn(len(paths))]
+			if _, ok := getAt(t2, p); !ok {
+				continue
+			}
+			if len(p) > 1 {
+				if _, ok := getAt(t2, p[:len(p)-1]); !ok {
+					continue
+				}
+			}
 			node, _ := getAt(t2, p)
 			class := ""
 			trivial := isEmptyNode(node)
